@@ -31,8 +31,10 @@ _c('C02', 'Proved for all inputs over the counters regenerated from charger_stat
           'waiting counter = number of vehicles queueing; for every base 0<=free<=total and total-free = vehicles parked or charging there; holds initially for a freshly loaded state.',
    'Coq proof: translated counter kernels + state invariant by induction over operation histories (macro frame theorem); differential correspondence; invariant monitor')
 _c('C03', 'Proved on the step model: no instruction diverts a vehicle with passengers (whole state unchanged); pickup = fare credited once + request removed + one event, impossible for a '
-          'non-waiting request; cancel removes only a timed-out waiting request with one event. PARTIAL: the per-request ledger over whole histories is decided by correspondence + ledger monitor.',
-   'Coq proof of per-transition lemmas on the hand-written step model + correspondence + ledger monitor', 'No pooling; unique request ids.')
+          'non-waiting request; cancel removes only a timed-out waiting request with one event. Proved over ALL finite histories of step operations, any controller (C03_ledger_over_histories, macro frame theorem): '
+          'replaying the event log gives each request id a status; a request is in the waiting map exactly when its status is Waiting (nothing vanishes without a trace) and every pickup / cancel event was filed for a '
+          'request Waiting at that moment, so after a pickup or cancel of an id there is no further one unless the id is admitted again (C03_closed_once). PARTIAL: drop-off exactly once by the same vehicle over histories.',
+   'Coq proof: per-transition lemmas + event-log ledger invariant by induction over operation histories (macro frame theorem); correspondence; ledger monitor', 'No pooling.')
 _c('C05', 'Proved: a charge step derives one (kwh, price = kwh x tariff) and applies it to vehicle, station and event in one update; payment conserved; gained = level rise (kernels regenerated). '
           'PARTIAL: sums over whole histories decided by correspondence + ledger monitor.',
    'Coq proof over step model + translated payment/energy kernels; correspondence; ledger monitor')
